@@ -566,12 +566,37 @@ def elseOf : Val → Val
   | .cons _ _ e => e
   | _ => .nil
 
+/-- a proper continuation of a list: a cons cell or nil (not a dotted atom) -/
+def consOrNil : Val → Bool
+  | .cons .. => true
+  | .nil => true
+  | _ => false
+
+/-- the argument list of the bounce form a self-call `(f . targs)` is rewritten to (ids erased):
+    `targs` itself when it is a list, and the one-element list `(atom)` for the dotted call
+    `(f . atom)` (Rust: `nil.append(targs)`) -/
+def selfArgs : Val → Val
+  | .cons i a d => eraseIds (.cons i a d)
+  | .nil => .nil
+  | atom => .cons 0 (eraseIds atom) .nil
+
+theorem selfArgs_of_consOrNil {targs : Val} (h : consOrNil targs = true) :
+    selfArgs targs = eraseIds targs := by
+  cases targs <;> first | rfl | simp [consOrNil] at h
+
+theorem selfArgs_of_atom {targs : Val} (h : consOrNil targs = false) :
+    selfArgs targs = .cons 0 (eraseIds targs) .nil := by
+  cases targs <;> first | rfl | simp [consOrNil] at h
+
 /-- the rewriting of a last form `tail = (th . targs)` exactly as `markTailCalls` does it, the
     recursive calls being made with `fuel` -/
 def newTailM (fname fuel : Nat) (c : Ctx) (tail th targs : Val) : M Val :=
   let hn := headName c th
   if isSelfHead c fname th then do
-    let argsCopy ← deepCopy targs
+    let argsCopy ← match targs with
+      | .cons .. => deepCopy targs
+      | .nil => pure Val.nil
+      | atom => mkListM [atom]
     let l ← mkListM [.builtin .evalEach, .bounce]
     match l with
     | .cons i1 x (.cons i2 y _) => pure (.cons i1 x (.cons i2 y argsCopy))
@@ -585,14 +610,16 @@ def newTailM (fname fuel : Nat) (c : Ctx) (tail th targs : Val) : M Val :=
       let b ← markTailCalls fname fuel lbody
       let b' ← mkCons varlist b
       mkCons th b'
-    | _ => do
+    | .nil => do
       mkListM [th, .nil]
+    | _ => M.throw .typeMismatch
   else if hn = "if" then
     match targs with
-    | .cons _ cond rest =>
-      let (thenF, elseB) := match rest with
-        | .cons _ tf e => (tf, e)
-        | _ => (Val.nil, Val.nil)
+    | .cons _ cond rest => do
+      let (thenF, elseB) ← (match rest with
+        | .cons _ tf e => pure (tf, e)
+        | .nil => pure (Val.nil, Val.nil)
+        | _ => M.throw .typeMismatch : M (Val × Val))
       do
         let tl ← mkListM [thenF]
         let tm ← markTailCalls fname fuel tl
@@ -601,7 +628,8 @@ def newTailM (fname fuel : Nat) (c : Ctx) (tail th targs : Val) : M Val :=
         let l3 ← mkCons thenF' e'
         let l2 ← mkCons cond l3
         mkCons th l2
-    | _ => mkListM [th, .nil, .nil]
+    | .nil => mkListM [th, .nil, .nil]
+    | _ => M.throw .typeMismatch
   else if hn = "cond" then do
     let clauses ← markClauses fname fuel targs
     mkCons th clauses
@@ -669,20 +697,24 @@ def bindR {α β} (s : Res α) (g : α → Res β) : Res β :=
     `recC` are the markings of a nested body / of `cond` clauses.  All ids of the result are 0. -/
 def formS (self : Val → Bool) (hname : Val → String) (recB recC : Val → Res Val)
     (tail th targs : Val) : Res Val :=
-  if self th then .ok (.cons 0 (.builtin .evalEach) (.cons 0 .bounce (eraseIds targs)))
+  if self th then .ok (.cons 0 (.builtin .evalEach) (.cons 0 .bounce (selfArgs targs)))
   else if hname th = "progn" then bindR (recB targs) fun b => .ok (.cons 0 (eraseIds th) b)
   else if hname th = "let" || hname th = "let*" then
     match targs with
     | .cons _ varlist lbody =>
       bindR (recB lbody) fun b => .ok (.cons 0 (eraseIds th) (.cons 0 (eraseIds varlist) b))
-    | _ => .ok (Val.ofList [eraseIds th, .nil])
+    | .nil => .ok (Val.ofList [eraseIds th, .nil])
+    | _ => .err .typeMismatch
   else if hname th = "if" then
     match targs with
     | .cons _ cond rest =>
-      bindR (recB (.cons 0 (thenOf rest) .nil)) fun tm =>
-      bindR (recB (elseOf rest)) fun e' =>
-      .ok (.cons 0 (eraseIds th) (.cons 0 (eraseIds cond) (.cons 0 (carOrNil tm) e')))
-    | _ => .ok (Val.ofList [eraseIds th, .nil, .nil])
+      if consOrNil rest then
+        bindR (recB (.cons 0 (thenOf rest) .nil)) fun tm =>
+        bindR (recB (elseOf rest)) fun e' =>
+        .ok (.cons 0 (eraseIds th) (.cons 0 (eraseIds cond) (.cons 0 (carOrNil tm) e')))
+      else .err .typeMismatch
+    | .nil => .ok (Val.ofList [eraseIds th, .nil, .nil])
+    | _ => .err .typeMismatch
   else if hname th = "cond" then bindR (recC targs) fun cl => .ok (.cons 0 (eraseIds th) cl)
   else .ok (eraseIds tail)
 
@@ -873,15 +905,36 @@ theorem markS_singleton (self : Val → Bool) (hname : Val → String) (fuel n :
   | zero => rfl
   | succ f => cases x <;> rfl
 
-theorem pairMatch_eq (rest : Val) :
-    (match rest with
-      | .cons _ tf e => (tf, e)
-      | _ => (Val.nil, Val.nil)) = (thenOf rest, elseOf rest) := by
-  cases rest <;> rfl
-
 theorem carMatch_eq (tm : Val) :
     (match tm with | .cons _ x _ => x | _ => Val.nil) = carOrNil tm := by
   cases tm <;> rfl
+
+/-- the part of the `if` case after the destructuring of `(cond then . else)` -/
+theorem if_body_sim {fname fuel : Nat} (ihB : MarkOK fname fuel) (c0 c : Ctx) (hfr : Fr c0 c)
+    (th cond thenF elseB : Val) :
+    Sim (do
+        let tl ← mkListM [thenF]
+        let tm ← markTailCalls fname fuel tl
+        let thenF' := match tm with | .cons _ x _ => x | _ => Val.nil
+        let e' ← markTailCalls fname fuel elseB
+        let l3 ← mkCons thenF' e'
+        let l2 ← mkCons cond l3
+        mkCons th l2) c
+      (bindR (markS (isSelfHead c0 fname) (headName c0) fuel (.cons 0 thenF .nil)) fun tm =>
+        bindR (markS (isSelfHead c0 fname) (headName c0) fuel elseB) fun e' =>
+        .ok (.cons 0 (eraseIds th) (.cons 0 (eraseIds cond) (.cons 0 (carOrNil tm) e')))) := by
+  simp only [carMatch_eq]
+  refine Sim.bind_mkListM (fun n c1 hf1 => ?_)
+  refine Sim.congr ?_ (markS_singleton _ _ fuel n thenF (fun x =>
+    bindR (markS (isSelfHead c0 fname) (headName c0) fuel elseB) fun e' =>
+      .ok (.cons 0 (eraseIds th) (.cons 0 (eraseIds cond) (.cons 0 x e')))))
+  refine Sim.bind (ihB (.cons n thenF .nil) c0 c1 (hfr.trans hf1)) (fun tm c2 hf2 => ?_)
+  rw [← eraseIds_carOrNil]
+  refine Sim.bind (ihB elseB c0 c2 ((hfr.trans hf1).trans hf2)) (fun e' c3 hf3 => ?_)
+  exact Sim.bind (g := fun l3 => .ok (.cons 0 (eraseIds th) (.cons 0 (eraseIds cond) l3)))
+    (Sim.mkCons _ _ _) (fun l3 c4 _ =>
+      Sim.bind (g := fun b => .ok (.cons 0 (eraseIds th) b)) (Sim.mkCons _ _ _)
+        (fun b c5 _ => Sim.mkCons _ _ _))
 
 theorem form_sim {fname fuel : Nat} (ihB : MarkOK fname fuel) (ihC : ClausesOK fname fuel)
     (c0 c : Ctx) (hfr : Fr c0 c) (tail th targs : Val) :
@@ -892,9 +945,18 @@ theorem form_sim {fname fuel : Nat} (ihB : MarkOK fname fuel) (ihC : ClausesOK f
   rw [isSelfHead_frame hfr, headName_frame hfr]
   by_cases h1 : isSelfHead c0 fname th = true
   · simp only [h1, if_true]
-    refine Sim.bind (g := fun a => .ok (.cons 0 (.builtin .evalEach) (.cons 0 .bounce a)))
-      (Sim.deepCopy targs c) (fun w c' _ => ?_)
-    exact Sim.bind_mkListM (fun n c'' _ => Sim.pure _ _)
+    have key : ∀ (m : M Val) (x : Val), Sim m c (.ok x) →
+        Sim (m >>= fun argsCopy => mkListM [.builtin .evalEach, .bounce] >>= fun l =>
+              match l with
+              | .cons i1 x (.cons i2 y _) => pure (.cons i1 x (.cons i2 y argsCopy))
+              | _ => pure l) c
+          (.ok (.cons 0 (.builtin .evalEach) (.cons 0 .bounce x))) := fun m x hm =>
+      Sim.bind (g := fun a => .ok (.cons 0 (.builtin .evalEach) (.cons 0 .bounce a))) hm
+        (fun w c' _ => Sim.bind_mkListM (fun n c'' _ => Sim.pure _ _))
+    cases targs with
+    | cons i a d => exact key _ _ (Sim.deepCopy _ c)
+    | nil => exact key _ _ (Sim.pure _ c)
+    | _ => exact key _ _ ((Sim.mkListM _ c).congr rfl)
   · simp only [h1, if_false, Bool.false_eq_true]
     by_cases h2 : headName c0 th = "progn"
     · simp only [h2, if_true]
@@ -907,25 +969,19 @@ theorem form_sim {fname fuel : Nat} (ihB : MarkOK fname fuel) (ihC : ClausesOK f
           exact Sim.bind (ihB lbody c0 c hfr) (fun w c' _ =>
             Sim.bind (g := fun b' => .ok (.cons 0 (eraseIds th) b')) (Sim.mkCons _ _ _)
               (fun w' c'' _ => Sim.mkCons _ _ _))
-        | _ => exact Sim.mkListM _ _
+        | nil => exact Sim.mkListM _ _
+        | _ => exact Sim.throw _ _
       · simp only [h3, if_false, Bool.false_eq_true]
         by_cases h4 : headName c0 th = "if"
         · simp only [h4, if_true]
           cases targs with
           | cons j cond rest =>
-            simp only [pairMatch_eq, carMatch_eq]
-            refine Sim.bind_mkListM (fun n c1 hf1 => ?_)
-            refine Sim.congr ?_ (markS_singleton _ _ fuel n (thenOf rest) (fun x =>
-              bindR (markS (isSelfHead c0 fname) (headName c0) fuel (elseOf rest)) fun e' =>
-                .ok (.cons 0 (eraseIds th) (.cons 0 (eraseIds cond) (.cons 0 x e')))))
-            refine Sim.bind (ihB (.cons n (thenOf rest) .nil) c0 c1 (hfr.trans hf1)) (fun tm c2 hf2 => ?_)
-            rw [← eraseIds_carOrNil]
-            refine Sim.bind (ihB (elseOf rest) c0 c2 ((hfr.trans hf1).trans hf2)) (fun e' c3 hf3 => ?_)
-            exact Sim.bind (g := fun l3 => .ok (.cons 0 (eraseIds th) (.cons 0 (eraseIds cond) l3)))
-              (Sim.mkCons _ _ _) (fun l3 c4 _ =>
-                Sim.bind (g := fun b => .ok (.cons 0 (eraseIds th) b)) (Sim.mkCons _ _ _)
-                  (fun b c5 _ => Sim.mkCons _ _ _))
-          | _ => exact Sim.mkListM _ _
+            cases rest with
+            | cons k tf e => exact if_body_sim ihB c0 c hfr th cond tf e
+            | nil => exact if_body_sim ihB c0 c hfr th cond .nil .nil
+            | _ => exact Sim.throw _ _
+          | nil => exact Sim.mkListM _ _
+          | _ => exact Sim.throw _ _
         · simp only [h4, if_false]
           by_cases h5 : headName c0 th = "cond"
           · simp only [h5, if_true]
@@ -1119,7 +1175,7 @@ variable {self : Val → Bool} {hname : Val → String} {recB recC : Val → Res
 
 theorem formS_self {th : Val} (h : self th = true) (tail targs : Val) :
     formS self hname recB recC tail th targs
-      = .ok (.cons 0 (.builtin .evalEach) (.cons 0 .bounce (eraseIds targs))) := by
+      = .ok (.cons 0 (.builtin .evalEach) (.cons 0 .bounce (selfArgs targs))) := by
   simp [formS, h]
 
 theorem formS_progn {th : Val} (h1 : self th = false) (h2 : hname th = "progn") (tail targs : Val) :
@@ -1134,22 +1190,39 @@ theorem formS_let {th : Val} (h1 : self th = false) (h2 : hname th = "let" ∨ h
   rcases h2 with h2 | h2 <;> simp [formS, h1, h2]
 
 theorem formS_let_empty {th : Val} (h1 : self th = false) (h2 : hname th = "let" ∨ hname th = "let*")
-    (tail : Val) {targs : Val} (h3 : targs.isCons = false) :
-    formS self hname recB recC tail th targs = .ok (Val.ofList [eraseIds th, .nil]) := by
-  rcases h2 with h2 | h2 <;> cases targs <;> simp [formS, h1, h2, Val.isCons] at h3 ⊢
+    (tail : Val) :
+    formS self hname recB recC tail th .nil = .ok (Val.ofList [eraseIds th, .nil]) := by
+  rcases h2 with h2 | h2 <;> simp [formS, h1, h2]
+
+/-- `(let . atom)`: `car` of an atom -/
+theorem formS_let_dotted {th : Val} (h1 : self th = false) (h2 : hname th = "let" ∨ hname th = "let*")
+    (tail : Val) {targs : Val} (h3 : consOrNil targs = false) :
+    formS self hname recB recC tail th targs = .err .typeMismatch := by
+  rcases h2 with h2 | h2 <;> cases targs <;> simp [formS, h1, h2, consOrNil] at h3 ⊢
 
 theorem formS_if {th : Val} (h1 : self th = false) (h2 : hname th = "if")
-    (tail : Val) (k : Nat) (cond rest : Val) :
+    (tail : Val) (k : Nat) (cond : Val) {rest : Val} (hr : consOrNil rest = true) :
     formS self hname recB recC tail th (.cons k cond rest)
       = bindR (recB (.cons 0 (thenOf rest) .nil)) fun tm =>
         bindR (recB (elseOf rest)) fun e' =>
         .ok (.cons 0 (eraseIds th) (.cons 0 (eraseIds cond) (.cons 0 (carOrNil tm) e'))) := by
+  simp [formS, h1, h2, hr]
+
+/-- `(if c . atom)`: `car` of an atom -/
+theorem formS_if_rest_dotted {th : Val} (h1 : self th = false) (h2 : hname th = "if")
+    (tail : Val) (k : Nat) (cond : Val) {rest : Val} (hr : consOrNil rest = false) :
+    formS self hname recB recC tail th (.cons k cond rest) = .err .typeMismatch := by
+  simp [formS, h1, h2, hr]
+
+theorem formS_if_empty {th : Val} (h1 : self th = false) (h2 : hname th = "if") (tail : Val) :
+    formS self hname recB recC tail th .nil = .ok (Val.ofList [eraseIds th, .nil, .nil]) := by
   simp [formS, h1, h2]
 
-theorem formS_if_empty {th : Val} (h1 : self th = false) (h2 : hname th = "if")
-    (tail : Val) {targs : Val} (h3 : targs.isCons = false) :
-    formS self hname recB recC tail th targs = .ok (Val.ofList [eraseIds th, .nil, .nil]) := by
-  cases targs <;> simp [formS, h1, h2, Val.isCons] at h3 ⊢
+/-- `(if . atom)` -/
+theorem formS_if_dotted {th : Val} (h1 : self th = false) (h2 : hname th = "if")
+    (tail : Val) {targs : Val} (h3 : consOrNil targs = false) :
+    formS self hname recB recC tail th targs = .err .typeMismatch := by
+  cases targs <;> simp [formS, h1, h2, consOrNil] at h3 ⊢
 
 theorem formS_cond {th : Val} (h1 : self th = false) (h2 : hname th = "cond") (tail targs : Val) :
     formS self hname recB recC tail th targs
@@ -1198,6 +1271,17 @@ theorem markS_body {fuel : Nat} {body v : Val} {ini : List Val} {j : Nat} {th ta
     · simp [Val.isCons] at hc
     · cases e
       exact ⟨nt, hf, hv⟩
+  | _ => simp [Val.elems] at he
+
+/-- one level of the specification on a body whose last form is the list `(th . targs)`,
+    whatever the outcome -/
+theorem markS_body_eq {fuel : Nat} {body : Val} {ini : List Val} {j : Nat} {th targs : Val}
+    (he : body.elems = ini ++ [.cons j th targs]) :
+    markS self hname (fuel + 1) body
+      = bindR (formS self hname (markS self hname fuel) (markClausesS self hname fuel)
+          (.cons j th targs) th targs) fun nt => .ok (Val.ofList (ini.map eraseIds ++ [nt])) := by
+  cases body with
+  | cons i a d => rw [markS, he, splitLast_append]
   | _ => simp [Val.elems] at he
 
 /-- A body whose last form is not a list is returned as it is. -/
@@ -1249,7 +1333,8 @@ end body
 
 /-! #### fuel -/
 
-/-- an outcome that is a value or the `TypeMismatch` error of a malformed `cond` clause -/
+/-- an outcome that is a value or the `TypeMismatch` error of a malformed `cond` clause or of a
+    dotted `(let . atom)`, `(if . atom)`, `(if c . atom)` -/
 def Good (s : Res Val) : Prop := (∃ v, s = .ok v) ∨ s = .err .typeMismatch
 
 theorem Good.ok (v : Val) : Good (.ok v) := .inl ⟨v, rfl⟩
@@ -1298,6 +1383,7 @@ theorem formS_good {self : Val → Bool} {hname : Val → String} {recB recC : V
       simp only [Val.size] at hsz
       exact (hB _ (by omega)).bind (fun _ => .ok _)
     · exact .ok _
+    · exact .inr rfl
   split
   · split
     · rename_i k cond rest
@@ -1305,9 +1391,12 @@ theorem formS_good {self : Val → Bool} {hname : Val → String} {recB recC : V
       have h2 := size_thenOf_le rest
       have h3 := size_elseOf_le rest
       have h4 := size_pos cond
-      refine (hB _ ?_).bind (fun _ => (hB _ (by omega)).bind (fun _ => .ok _))
-      simp only [Val.size]; omega
+      split
+      · refine (hB _ ?_).bind (fun _ => (hB _ (by omega)).bind (fun _ => .ok _))
+        simp only [Val.size]; omega
+      · exact .inr rfl
     · exact .ok _
+    · exact .inr rfl
   split
   · exact (hC _ (by omega)).bind (fun _ => .ok _)
   · exact .ok _
@@ -1368,18 +1457,24 @@ theorem good_of_mapR {r : Res Val} (h : Good (mapR eraseIds r)) :
   | panic s => rcases h with ⟨v, h⟩ | h <;> simp [mapR] at h
   | fuel => rcases h with ⟨v, h⟩ | h <;> simp [mapR] at h
 
+theorem err_of_mapR {r : Res Val} {k : ErrKind} (h : mapR eraseIds r = .err k) : r = .err k := by
+  cases r <;> simp [mapR] at h ⊢
+  exact h
+
 /-! ### 4d: tail positions as an inductive relation -/
 
 mutual
 /-- `FormR self hname form out`: `out` is `form`, a form in TAIL POSITION, with every self-call in
     tail position replaced by its bounce form and everything else copied (ids erased).
     Tail positions: the form itself; the last form of a `progn` / `let` / `let*` body; the
-    then-form and the last else-form of an `if`; the last form of every `cond` clause body. -/
+    then-form and the last else-form of an `if`; the last form of every `cond` clause body.
+    A dotted self-call `(f . atom)` becomes `(<evalEach> <bounce> atom)` (`selfArgs`); the dotted
+    forms `(let . atom)`, `(if . atom)`, `(if c . atom)` have NO output (the marking fails). -/
 inductive FormR (self : Val → Bool) (hname : Val → String) : Val → Val → Prop
   | atom {x : Val} : x.isCons = false → FormR self hname x (eraseIds x)
   | selfCall {j : Nat} {th targs : Val} : self th = true →
       FormR self hname (.cons j th targs)
-        (.cons 0 (.builtin .evalEach) (.cons 0 .bounce (eraseIds targs)))
+        (.cons 0 (.builtin .evalEach) (.cons 0 .bounce (selfArgs targs)))
   | progn {j : Nat} {th targs b : Val} : self th = false → hname th = "progn" →
       BodyR self hname targs b →
       FormR self hname (.cons j th targs) (.cons 0 (eraseIds th) b)
@@ -1387,16 +1482,16 @@ inductive FormR (self : Val → Bool) (hname : Val → String) : Val → Val →
       (hname th = "let" ∨ hname th = "let*") → BodyR self hname lbody b →
       FormR self hname (.cons j th (.cons k varlist lbody))
         (.cons 0 (eraseIds th) (.cons 0 (eraseIds varlist) b))
-  | letEmpty {j : Nat} {th targs : Val} : self th = false →
-      (hname th = "let" ∨ hname th = "let*") → targs.isCons = false →
-      FormR self hname (.cons j th targs) (Val.ofList [eraseIds th, .nil])
+  | letEmpty {j : Nat} {th : Val} : self th = false →
+      (hname th = "let" ∨ hname th = "let*") →
+      FormR self hname (.cons j th .nil) (Val.ofList [eraseIds th, .nil])
   | if_ {j k : Nat} {th cond rest t' e' : Val} : self th = false → hname th = "if" →
+      consOrNil rest = true →
       FormR self hname (thenOf rest) t' → BodyR self hname (elseOf rest) e' →
       FormR self hname (.cons j th (.cons k cond rest))
         (.cons 0 (eraseIds th) (.cons 0 (eraseIds cond) (.cons 0 t' e')))
-  | ifEmpty {j : Nat} {th targs : Val} : self th = false → hname th = "if" →
-      targs.isCons = false →
-      FormR self hname (.cons j th targs) (Val.ofList [eraseIds th, .nil, .nil])
+  | ifEmpty {j : Nat} {th : Val} : self th = false → hname th = "if" →
+      FormR self hname (.cons j th .nil) (Val.ofList [eraseIds th, .nil, .nil])
   | cond_ {j : Nat} {th targs cl : Val} : self th = false → hname th = "cond" →
       ClausesR self hname targs cl →
       FormR self hname (.cons j th targs) (.cons 0 (eraseIds th) cl)
@@ -1476,22 +1571,35 @@ theorem formS_sound {recB recC : Val → Res Val}
       rw [formS_let h1' h3] at h
       obtain ⟨b, hb, e⟩ := bindR_eq_ok h
       cases e; exact .let_ h1' h3 (hB _ _ hb)
-    · have ht' : targs.isCons = false := by simpa using ht
-      rw [formS_let_empty h1' h3 _ ht'] at h
-      cases h; exact .letEmpty h1' h3 ht'
+    · by_cases hn : targs = .nil
+      · subst hn
+        rw [formS_let_empty h1' h3] at h
+        cases h; exact .letEmpty h1' h3
+      · have hd : consOrNil targs = false := by
+          cases targs <;> simp [consOrNil, Val.isCons] at ht hn ⊢
+        rw [formS_let_dotted h1' h3 _ hd] at h
+        cases h
   by_cases h4 : hname th = "if"
   · by_cases ht : targs.isCons = true
     · obtain ⟨k, cond, rest, rfl⟩ : ∃ i a d, targs = .cons i a d := by
         cases targs <;> simp [Val.isCons] at ht
         exact ⟨_, _, _, rfl⟩
-      rw [formS_if h1' h4] at h
-      obtain ⟨tm, htm, h⟩ := bindR_eq_ok h
-      obtain ⟨e', he', e⟩ := bindR_eq_ok h
-      cases e
-      exact .if_ h1' h4 (FormR_of_singleton (hB _ _ htm)) (hB _ _ he')
-    · have ht' : targs.isCons = false := by simpa using ht
-      rw [formS_if_empty h1' h4 _ ht'] at h
-      cases h; exact .ifEmpty h1' h4 ht'
+      by_cases hr : consOrNil rest = true
+      · rw [formS_if h1' h4 _ _ _ hr] at h
+        obtain ⟨tm, htm, h⟩ := bindR_eq_ok h
+        obtain ⟨e', he', e⟩ := bindR_eq_ok h
+        cases e
+        exact .if_ h1' h4 hr (FormR_of_singleton (hB _ _ htm)) (hB _ _ he')
+      · rw [formS_if_rest_dotted h1' h4 _ _ _ (by simpa using hr)] at h
+        cases h
+    · by_cases hn : targs = .nil
+      · subst hn
+        rw [formS_if_empty h1' h4] at h
+        cases h; exact .ifEmpty h1' h4
+      · have hd : consOrNil targs = false := by
+          cases targs <;> simp [consOrNil, Val.isCons] at ht hn ⊢
+        rw [formS_if_dotted h1' h4 _ hd] at h
+        cases h
   by_cases h5 : hname th = "cond"
   · rw [formS_cond h1' h5] at h
     obtain ⟨cl, hcl, e⟩ := bindR_eq_ok h
@@ -1561,15 +1669,15 @@ theorem formS_complete {recB recC : Val → Res Val} {fuel : Nat}
   | let_ h1 h2 hb =>
     simp only [Val.size] at hsz
     rw [formS_let h1 h2, hB _ _ hb (by omega)]; rfl
-  | letEmpty h1 h2 ht => exact formS_let_empty h1 h2 _ ht
-  | @if_ _ k _ cond rest t' e' h1 h2 ht he =>
+  | letEmpty h1 h2 => exact formS_let_empty h1 h2 _
+  | @if_ _ k _ cond rest t' e' h1 h2 hr ht he =>
     simp only [Val.size] at hsz
     have s1 := size_thenOf_le rest
     have s2 := size_elseOf_le rest
     have s3 := size_pos cond
     obtain ⟨tm, hb, rfl⟩ := singleton_of_FormR ht
-    rw [formS_if h1 h2, hB _ _ hb (by simp only [Val.size]; omega), hB _ _ he (by omega)]; rfl
-  | ifEmpty h1 h2 ht => exact formS_if_empty h1 h2 _ ht
+    rw [formS_if h1 h2 _ _ _ hr, hB _ _ hb (by simp only [Val.size]; omega), hB _ _ he (by omega)]; rfl
+  | ifEmpty h1 h2 => exact formS_if_empty h1 h2 _
   | cond_ h1 h2 hc =>
     rw [formS_cond h1 h2, hC _ _ hc (by omega)]; rfl
   | other h1 h2 => exact formS_other h1 h2 _ _
